@@ -1,5 +1,5 @@
 SPECIFICATION Spec
 CONSTANTS WBase = 4
-  Vals <- ValsSmall
+  Vals <- ValsQuick
   MulMax = 255
 INVARIANTS RoundTrip AddOk SubOk MulOk LeOk MulLimbOk DivOk BitOk Pow2Ok
